@@ -18,6 +18,7 @@ var units = map[string]common.UnitFunc{
 	"c08":       unitC08,
 	"c18deal":   unitC18deal,
 	"c18dkg":    unitC18dkg,
+	"c18ctx":    unitC18ctx,
 }
 
 func main() { common.ChildMain(units) }
